@@ -15,38 +15,49 @@ Theorem C15_literal_covers_password : forall pw rest, lit_rest (quote_string pw 
 Proof. exact lit_rest_quote. Qed.
 Print Assumptions C15_literal_covers_password.
 
-(* CREATE USER ... WITH PASSWORD: any letter case, any whitespace between the keywords (none needed before the
-   literal), any password, after any text free of the letter w: exactly the literal is replaced *)
+(* [sanitize] is the whole function: ONE pass over the text with the one pattern (both clause heads).
+   CREATE USER ... WITH PASSWORD: any letter case, any whitespace between the keywords (none needed before the
+   literal), any password - clause keywords and quotes inside it included - after any text free of the letters w
+   and p: exactly the literal is replaced, and the rest of the text is sanitized on its own *)
 Theorem C15_sanitize_create : forall pre w ws1 p ws0 pw post,
-  Forall (fun c => ci 119 c = false) pre ->
+  Forall plain pre ->
   spells (ts "with") w -> w <> [] -> all_space ws1 -> ws1 <> [] -> spells (ts "password") p -> p <> [] -> starts_nonspace p -> all_space ws0 ->
-  redact_all match_create 0 (pre ++ (w ++ ws1 ++ p ++ ws0) ++ quote_string pw ++ post)
-  = pre ++ (w ++ ws1 ++ p ++ ws0) ++ redacted ++ redact_all match_create 0 post.
-Proof. exact sanitize_create_exact. Qed.
+  sanitize (pre ++ (w ++ ws1 ++ p ++ ws0) ++ quote_string pw ++ post)
+  = pre ++ (w ++ ws1 ++ p ++ ws0) ++ redacted ++ sanitize post.
+Proof. exact sanitize_create. Qed.
 Print Assumptions C15_sanitize_create.
 
 (* SET PASSWORD FOR "name" = : any user name content, any layout around FOR and '=', any password *)
 Theorem C15_sanitize_set : forall pre p ws1 f ws2 u ws3 ws4 pw post,
-  Forall (fun c => ci 112 c = false) pre ->
+  Forall plain pre ->
   spells (ts "password") p -> p <> [] -> all_space ws1 -> ws1 <> [] -> spells (ts "for") f -> f <> [] -> starts_nonspace f ->
   all_space ws2 -> ws2 <> [] -> all_space ws3 -> all_space ws4 ->
-  redact_all match_set 0 (pre ++ (p ++ ws1 ++ f ++ ws2 ++ quoted_name u ++ ws3 ++ 61 :: ws4) ++ quote_string pw ++ post)
-  = pre ++ (p ++ ws1 ++ f ++ ws2 ++ quoted_name u ++ ws3 ++ 61 :: ws4) ++ redacted ++ redact_all match_set 0 post.
-Proof. exact sanitize_set_exact. Qed.
+  sanitize (pre ++ (p ++ ws1 ++ f ++ ws2 ++ quoted_name u ++ ws3 ++ 61 :: ws4) ++ quote_string pw ++ post)
+  = pre ++ (p ++ ws1 ++ f ++ ws2 ++ quoted_name u ++ ws3 ++ 61 :: ws4) ++ redacted ++ sanitize post.
+Proof. exact sanitize_set. Qed.
 Print Assumptions C15_sanitize_set.
 
 (* non-interference: the sanitized text is the same for any two passwords *)
 Theorem C15_sanitize_ni : forall pre w ws1 p ws0 pw1 pw2 post,
-  Forall (fun c => ci 119 c = false) pre ->
+  Forall plain pre ->
   spells (ts "with") w -> w <> [] -> all_space ws1 -> ws1 <> [] -> spells (ts "password") p -> p <> [] -> starts_nonspace p -> all_space ws0 ->
-  redact_all match_create 0 (pre ++ (w ++ ws1 ++ p ++ ws0) ++ quote_string pw1 ++ post)
-  = redact_all match_create 0 (pre ++ (w ++ ws1 ++ p ++ ws0) ++ quote_string pw2 ++ post).
-Proof. exact sanitize_create_ni. Qed.
+  sanitize (pre ++ (w ++ ws1 ++ p ++ ws0) ++ quote_string pw1 ++ post)
+  = sanitize (pre ++ (w ++ ws1 ++ p ++ ws0) ++ quote_string pw2 ++ post).
+Proof. exact sanitize_ni_create. Qed.
 Print Assumptions C15_sanitize_ni.
 
-(* text in which a pattern matches nowhere is returned unchanged by its pass *)
-Theorem C15_identity : forall m t, quiet m t [] -> redact_all m 0 t = t.
-Proof. exact redact_identity. Qed.
+Theorem C15_sanitize_ni_set : forall pre p ws1 f ws2 u ws3 ws4 pw1 pw2 post,
+  Forall plain pre ->
+  spells (ts "password") p -> p <> [] -> all_space ws1 -> ws1 <> [] -> spells (ts "for") f -> f <> [] -> starts_nonspace f ->
+  all_space ws2 -> ws2 <> [] -> all_space ws3 -> all_space ws4 ->
+  sanitize (pre ++ (p ++ ws1 ++ f ++ ws2 ++ quoted_name u ++ ws3 ++ 61 :: ws4) ++ quote_string pw1 ++ post)
+  = sanitize (pre ++ (p ++ ws1 ++ f ++ ws2 ++ quoted_name u ++ ws3 ++ 61 :: ws4) ++ quote_string pw2 ++ post).
+Proof. exact sanitize_ni_set. Qed.
+Print Assumptions C15_sanitize_ni_set.
+
+(* text in which the pattern matches nowhere is returned unchanged *)
+Theorem C15_identity : forall t, quiet match_any t [] -> sanitize t = t.
+Proof. exact sanitize_identity. Qed.
 Print Assumptions C15_identity.
 
 (* the findings, evaluated by the kernel *)
@@ -55,6 +66,11 @@ Theorem C15_refuted_comment_in_clause :
   sanitize (ts "CREATE USER u WITH /* c */ PASSWORD 'pw'") = ts "CREATE USER u WITH /* c */ PASSWORD 'pw'".
 Proof. vm_compute. reflexivity. Qed.
 Print Assumptions C15_refuted_comment_in_clause.
+
+(* the defect repaired by the one-pass pattern: a CREATE USER password that spells a SET PASSWORD clause *)
+Example C15_clause_inside_password :
+  sanitize (ts "CREATE USER x WITH PASSWORD 'a password for x = \'b'") = ts "CREATE USER x WITH PASSWORD [REDACTED]".
+Proof. vm_compute. reflexivity. Qed.
 
 (* non-vacuity: two statements in one text, mixed case, newlines, a password with blanks, both quotes and '=' *)
 Example C15_example :
